@@ -13,6 +13,7 @@ import (
 	"github.com/TimothyStiles/poly"
 	"github.com/TimothyStiles/poly/io/gff"
 	"pgregory.net/rapid"
+	"verifharness/internal/gbk"
 	"verifharness/internal/vk"
 )
 
@@ -306,10 +307,18 @@ func check(c Case) error {
 	if err := compareFile(c, text); err != nil {
 		return err
 	}
-	buf := append([]byte{}, text...) // a buffer of the parser's own, overwritten once it has returned
+	buf, intact := vk.Guarded(text) // the front part of a larger buffer of the caller's, overwritten once the parser has returned
 	parsed := gff.Parse(buf)
+	if err := intact(); err != nil {
+		return fmt.Errorf("Parse(Build(x)): %v", err)
+	}
 	vk.Scribble(buf)
 	if err := compare("Parse(Build(x))", c, parsed); err != nil {
+		return err
+	}
+	// the record read belongs to the caller: written into, the same text reads again to what it says
+	gbk.Vandalise(&parsed)
+	if err := compare("Parse(Build(x)), a second time, after the caller had written into the first result", c, gff.Parse(append([]byte{}, text...))); err != nil {
 		return err
 	}
 	if again := gff.Build(x); string(again) != string(text) {
